@@ -203,14 +203,23 @@ func c12DriveCar(c *c12kit.Case, s *c12kit.Stepper) {
 	in := c.In
 	budget := len(in) + 8
 	s.Do("carreader.ReadHeader", func() error { _, err := carreader.ReadHeader(bytes.NewReader(in)); return err })
+	var hdrOK bool
+	var cr0 *carreader.CarReader
+	if s.Do("carreader.New", func() (err error) { cr0, err = carreader.New(io.NopCloser(bytes.NewReader(in))); hdrOK = err == nil; return }) {
+		s.Do("carreader.CarReader.HeaderSize", func() error { _, err := cr0.HeaderSize(); return err })
+	}
+	if !hdrOK {
+		return
+	}
+	// every loop step opens its own reader, so that a step can be executed again (allocation attribution)
 	loop := func(name string, next func(cr *carreader.CarReader) error) {
-		var cr *carreader.CarReader
-		if !s.Do("carreader.New", func() (err error) { cr, err = carreader.New(io.NopCloser(bytes.NewReader(in))); return }) {
-			return
-		}
-		s.Do("carreader.CarReader.HeaderSize", func() error { _, err := cr.HeaderSize(); return err })
 		iters := 0
 		s.Do(name, func() error {
+			iters = 0
+			cr, err := carreader.New(io.NopCloser(bytes.NewReader(in)))
+			if err != nil {
+				return err
+			}
 			for {
 				if err := next(cr); err != nil {
 					return nil // error or EOF ends the loop: fine
